@@ -101,3 +101,46 @@ def patched(obj, attr, value):
             delattr(obj, attr)
         else:
             setattr(obj, attr, old)
+
+
+_PLAIN_ETREE = None
+
+
+def plain_etree_module():
+    """A second instance of fontTools.misc.etree built on xml.etree (lxml hidden)."""
+    global _PLAIN_ETREE
+    if _PLAIN_ETREE is None:
+        import importlib.util
+        import fontTools.misc.etree as real
+
+        saved = {k: sys.modules.get(k, _MISSING) for k in ("lxml", "lxml.etree")}
+        sys.modules["lxml"] = None
+        sys.modules["lxml.etree"] = None
+        try:
+            spec = importlib.util.spec_from_file_location("fontTools.misc._verif_plain_etree", real.__file__)
+            mod = importlib.util.module_from_spec(spec)
+            spec.loader.exec_module(mod)
+        finally:
+            for k, v in saved.items():
+                if v is _MISSING:
+                    sys.modules.pop(k, None)
+                else:
+                    sys.modules[k] = v
+        assert not mod._have_lxml
+        _PLAIN_ETREE = mod
+    return _PLAIN_ETREE
+
+
+@contextlib.contextmanager
+def etree_backend(use_lxml):
+    """Run with lxml (as installed) or with the xml.etree fallback of fontTools.misc.etree."""
+    if use_lxml:
+        yield
+        return
+    import fontTools.designspaceLib as dsl
+    import fontTools.misc.plistlib as pl
+    import fontTools.ufoLib.glifLib as gl
+
+    mod = plain_etree_module()
+    with patched(dsl, "ET", mod), patched(pl, "etree", mod), patched(gl, "etree", mod):
+        yield
